@@ -24,14 +24,14 @@ package queue
 //@   ensures  [C07] inv: inv(q) && q.n == old(q.n) + 1
 //@   ensures  [C07] last: view(q, old(q.n)) == v
 //@   ensures  [C07] kept: forall i int :: 0 <= i && i < old(q.n) ==> view(q, i) == old(view(q, i))
-//@   modifies q.vs, q.head, q.n, elems(q.vs)
+//@   modifies q.vs, q.head, q.n, backing(q.vs)
 //@
 //@ func (*Queue).Push
 //@   requires inv(q)
 //@   ensures  [C07] inv: inv(q) && q.n == old(q.n) + 1
 //@   ensures  [C07] first: view(q, 0) == v
 //@   ensures  [C07] shifted: forall i int :: 0 <= i && i < old(q.n) ==> view(q, i+1) == old(view(q, i))
-//@   modifies q.vs, q.head, q.n, elems(q.vs)
+//@   modifies q.vs, q.head, q.n, backing(q.vs)
 //@
 //@ func (*Queue).IsEmpty
 //@   requires inv(q)
